@@ -1,3 +1,4 @@
+import Agd.Tie.TrC18
 import Agd.Lemmas.ConnLimit
 import Agd.Tie.C18
 /-!
@@ -344,3 +345,6 @@ theorem closed_accept_leak_blocks_others :
 #print axioms closed_accept_leak_blocks_others
 
 end Agd.ConnLimit
+#print axioms Agd.Tie.TrC18.translation_complete
+#print axioms Agd.Tie.TrC18.increment_tr
+#print axioms Agd.Tie.TrC18.decrement_tr
